@@ -20,7 +20,7 @@ import time
 
 VERIF = os.path.dirname(os.path.dirname(os.path.abspath(__file__)))
 SEEDED = os.path.join(VERIF, "seeded")
-EXTRA = {"C13-m2": ["C10"], "C15-m1": ["C10"], "C05-m4": ["C19"], "C11-m3": ["C10"], "C17-m4": ["C18"], "C20-m4": ["C18"], "C05-m6": ["C14"], "C08-m5": ["C19"], "C12-m5": ["C02"], "C05-m8": ["C15"], "C09-m8": ["C18"], "C18-m7": ["C10"]}
+EXTRA = {"C01-m7": ["C10"], "C13-m2": ["C10"], "C15-m1": ["C10"], "C05-m4": ["C19"], "C11-m3": ["C10"], "C17-m4": ["C18"], "C20-m4": ["C18"], "C05-m6": ["C14"], "C08-m5": ["C19"], "C12-m5": ["C02"], "C05-m8": ["C15"], "C09-m8": ["C18"], "C18-m7": ["C10"]}
 
 
 def section(readme, *names):
